@@ -106,6 +106,22 @@ func TestVerifWheel(t *testing.T) {
 				rec.Tp, rec.T, rec.D = "add", id, dl
 			case x < 6:
 				id := 1 + rng.Intn(ntimers)
+				if n, ok := nodes[id]; ok && rng.Intn(2) == 0 {
+					// a read extends the deadline in place and its event is dropped by the lossy read buffer: the wheel is not told
+					cur := n.ExpiresAt() / wheelUnit
+					if cur < now {
+						cur = now
+					}
+					nd := cur + []int64{1, 3, 700, 1024, 2048, 5000, 70000, 1 << 20}[rng.Intn(8)]
+					if nd >= (1 << 30) {
+						nd = (1 << 30) - 1
+					}
+					if nd > n.ExpiresAt()/wheelUnit {
+						n.SetExpiresAt(nd * wheelUnit)
+						rec.Tp, rec.T, rec.D = "ext", id, nd
+						break
+					}
+				}
 				if n, ok := nodes[id]; ok {
 					v.Delete(n)
 					delete(nodes, id)
